@@ -156,6 +156,23 @@ def audit(prop, allowed_axioms=()):
     res['discharged'] = [n for n in names if n in res['axioms'] and not any(n in p for p in res['problems'])]
     return res
 
+def coq_diag(prop, src):
+    """evaluate a small Coq file (Require + Eval vm_compute) after a proof broke; returns its output"""
+    mods = set()
+    for line in strip_coq_comments(src).split('.\n'):
+        m = re.match(r'\s*Require Import (.*)', line.strip(), re.S)
+        if m: mods.update(x for x in m.group(1).split() if x.split('.')[0] in QDIRS)
+    ok, out, _ = coq_make([x.replace('.', '/') + '.vo' for x in sorted(mods)])
+    if not ok: return 'the definitions needed for the diagnosis do not compile either: ' + out[-400:]
+    os.makedirs(WORK, exist_ok=True)
+    f = os.path.join(WORK, 'Diag_%s.v' % prop)
+    open(f, 'w').write(src)
+    rc, out, _ = sh('timeout 300 coqc %s %s' % (qflags(COQ + '/'), f), cwd=WORK, timeout=330)
+    for ext in ('.vo', '.vok', '.vos', '.glob'):
+        q = f[:-2] + ext
+        if os.path.exists(q): os.remove(q)
+    return re.sub(r'\s+', ' ', out).strip()[:1800]
+
 def coqchk(modules):
     rc, out, dt = sh('timeout 1500 coqchk -silent -o %s %s' % (qflags(), ' '.join(modules)), cwd=COQ, timeout=1530)
     ax = []
